@@ -43,17 +43,20 @@ type Field struct {
 	Tag      string `json:"tag,omitempty"`
 }
 
-func Basic(name string) *T       { return &T{K: KBasic, Name: name} }
-func Named(pkg, name string) *T  { return &T{K: KNamed, Pkg: pkg, Name: name} }
-func Ptr(e *T) *T                { return &T{K: KPtr, Elem: e} }
-func Slice(e *T) *T              { return &T{K: KSlice, Elem: e} }
-func Array(n int, e *T) *T       { return &T{K: KArray, Len: n, Elem: e} }
-func Map(k, v *T) *T             { return &T{K: KMap, Key: k, Elem: v} }
-func Struct(fields ...Field) *T  { return &T{K: KStruct, Fields: fields} }
-func Iface(text string) *T       { return &T{K: KIface, Name: text} }
-func Func(text string) *T        { return &T{K: KFunc, Name: text} }
-func Chan(dir string, e *T) *T   { return &T{K: KChan, Name: dir, Elem: e} }
-func F(name string, t *T) Field  { return Field{Name: name, T: t} }
+func Basic(name string) *T      { return &T{K: KBasic, Name: name} }
+func Named(pkg, name string) *T { return &T{K: KNamed, Pkg: pkg, Name: name} }
+func Ptr(e *T) *T               { return &T{K: KPtr, Elem: e} }
+func Slice(e *T) *T             { return &T{K: KSlice, Elem: e} }
+func Array(n int, e *T) *T      { return &T{K: KArray, Len: n, Elem: e} }
+func Map(k, v *T) *T            { return &T{K: KMap, Key: k, Elem: v} }
+func Struct(fields ...Field) *T { return &T{K: KStruct, Fields: fields} }
+func Iface(text string) *T      { return &T{K: KIface, Name: text} }
+func Func(text string) *T       { return &T{K: KFunc, Name: text} }
+
+// FuncOf is a function type whose text holds one %s that stands for the type elem.
+func FuncOf(text string, elem *T) *T { return &T{K: KFunc, Name: text, Elem: elem} }
+func Chan(dir string, e *T) *T       { return &T{K: KChan, Name: dir, Elem: e} }
+func F(name string, t *T) Field      { return Field{Name: name, T: t} }
 func Generic(pkg, name string, args ...*T) *T {
 	return &T{K: KNamed, Pkg: pkg, Name: name, Args: args}
 }
@@ -102,7 +105,12 @@ func (t *T) Key_() string {
 			fs = append(fs, n+f.T.Key_())
 		}
 		return "struct{" + strings.Join(fs, "; ") + "}"
-	case KIface, KFunc:
+	case KFunc:
+		if t.Elem != nil {
+			return strings.Replace(t.Name, "%s", t.Elem.Key_(), 1)
+		}
+		return t.Name
+	case KIface:
 		return t.Name
 	case KChan:
 		return t.Name + " " + t.Elem.Key_()
@@ -357,7 +365,12 @@ func (r *renderer) Expr(t *T) string {
 			return "struct{}"
 		}
 		return "struct{ " + strings.Join(fs, "; ") + " }"
-	case KIface, KFunc:
+	case KFunc:
+		if t.Elem != nil {
+			return strings.Replace(t.Name, "%s", r.Expr(t.Elem), 1)
+		}
+		return t.Name
+	case KIface:
 		return t.Name
 	case KChan:
 		if t.Name == "chan" && t.Elem.K == KChan && t.Elem.Name == "<-chan" {
